@@ -38,7 +38,7 @@ def prod(l):
 def inst_term(c):
     k = c['comp']
     if k == 'addsub':
-        return '(addsub %s %s)' % (nat(c['vs'] * c['len']), qlist([fr(s) for s in c['sfs']]))
+        return '(addsub %s %s%%Q)' % (nat(c['vs'] * c['len']), qlist([fr(s) for s in c['sfs']]))
     if k == 'mux':
         shp, ax = c['in_shape'], c['axis']
         return '(mux %s %s %s)' % (nat(c['vs']), nat(prod(shp[:ax])), nat(prod(shp[ax:])))
@@ -53,7 +53,7 @@ def inst_term(c):
     if k in ('eqc', 'balance'):
         N = c['n']
         rhs = [fr(v) for v in c['x'][N:2 * N]]
-        return '(eqc %s %s %s %s)' % (nat(N), boollit(c['normalize']), boollit(c['use_mult']), qlist(rhs))
+        return '(eqc %s %s %s %s%%Q)' % (nat(N), boollit(c['normalize']), boollit(c['use_mult']), qlist(rhs))
     if k == 'linsys':
         return '(linsys %s %s %s)' % (nat(c['vs']), nat(c['size']), boollit(c['vecA']))
     raise ValueError(k)
@@ -119,6 +119,8 @@ def gen_case(rng, k):
         x = lhs + rhs + ([dy(rng) for _ in range(N)] if c['use_mult'] else [])
         c['x'] = [jq(v) for v in x]
         c['ulps'] = 16 if c['normalize'] else 0
+        mul = x[2 * N:] if c['use_mult'] else [Fraction(1)] * N
+        c['mag'] = jq(max(abs(m * l) + abs(r) + 1 for m, l, r in zip(mul, lhs, rhs)))
         c['variant'] = ('norm' if c['normalize'] else 'raw') + (':mult' if c['use_mult'] else '')
         return c
     elif k == 'linsys':
@@ -146,7 +148,7 @@ class C26(Spec):
             'derivative, for all real inputs" is generated and closed by field')
 
     def gen(self, tier, rng):
-        n = 60 if tier == 'quick' else 600
+        n = 40 if tier == 'quick' else 600
         cases = []
         for k in ('addsub', 'mux', 'dotp', 'cross', 'matvec', 'vmag', 'eqc', 'balance', 'linsys'):
             cases += [gen_case(rng, k) for _ in range(n)]
@@ -168,12 +170,11 @@ class C26(Spec):
 
     def got_term(self, c):
         r = c['_res']
-        return '(check_inst (%d#1) %s %s %s %s %s)' % (
-            c.get('ulps', 0), inst_term(c), qlist([fr(v) for v in c['x']]),
+        return '(check_inst (%d#1) %s %s %s %s %s %s)' % (
+            c.get('ulps', 0), qlit(fr(c.get('mag', [0, 1]))), inst_term(c), qlist([fr(v) for v in c['x']]),
             qlist([fr(v['q']) for v in r['outs']]), nat(r['ncols']), qlist([fr(v['q']) for v in r['jac']]))
 
     def want_term(self, c, res):
-        c.pop('_res', None)
         return '(VL [VB true; vzs []; vzs []])'
 
 
@@ -197,7 +198,7 @@ def symbolic_goals(cases, tier):
         goals.sort()
         per, out = {}, []
         for g in goals:
-            if per.get(g[1], 0) < 8:
+            if per.get(g[1], 0) < 5:
                 per[g[1]] = per.get(g[1], 0) + 1
                 out.append(g)
         goals = out
@@ -218,7 +219,7 @@ def main(tier):
         if g['build_ok']:
             nchunks = max(1, min(core.NCPU, len(goals)))
             chunks = [goals[k::nchunks] for k in range(nchunks)]
-            hdr = ('From Coq Require Import Reals List.\nFrom OMV Require Import Expr.Expr Expr.ExprProofs '
+            hdr = ('From Coq Require Import Reals QArith List.\nFrom OMV Require Import Expr.Expr Expr.ExprProofs '
                    'C26.Model C26.Proofs.\nImport ListNotations.\n')
             with cf.ThreadPoolExecutor(max_workers=nchunks) as ex:
                 futs = [ex.submit(core.coq_script, wd, 'instgoals_%d.v' % k, hdr + '\n'.join(ch) + '\n', 1200)
